@@ -27,7 +27,9 @@ Program recipe (plain JSON)
                                    gives every op its own cast and any interleaving is sound.
     bare_ok (explicit mode): a path without casts uses the bare root even if other epochs reach the root through explicit casts
                                    (set-memory-space then decides per op whether an existing L1 cast may be shared)
-    stmt = ["op", kind, [input refs], [output root refs]] | ["for", [stmt]]
+    stmt = ["op", kind, [input refs], [output root refs]] | ["for", [stmt]] | ["for", [stmt], {"ub": n}]
+           a loop without header takes its trip count from a function argument (run-time, `trips`); with {"ub": n} its bounds are
+           the arith.constants 0 and n (n = 0: constant empty range)
            kind: "linalg_lib" | "linalg" | "dart_op" | "dart_sched" | "test"
            input ref: root number (read through the epoch's path A of that root) | ["alt", root number, variant] (read-only
            access through ANOTHER path B of the root, made right in front of the op: a (tile / full-size) subview of the root
@@ -241,7 +243,9 @@ def _stmts(draw, nroots, depth, maxn):
     out = []
     for _ in range(n):
         if depth > 0 and draw(st.integers(0, 3)) == 0:
-            out.append(["for", draw(_stmts(nroots, depth - 1, 2))])
+            body_ = draw(_stmts(nroots, depth - 1, 2))
+            ub_ = draw(st.sampled_from([None, None, None, 0, 1, 2, 3]))
+            out.append(["for", body_] if ub_ is None else ["for", body_, {"ub": ub_}])
         else:
             out.append(draw(_op(nroots)))
     return out
@@ -275,6 +279,23 @@ def program(draw, tier="quick", mode=None):
         else:
             stmts = draw(_stmts(nroots, 2 if tier == "thorough" else 1, 3))
         epochs.append(dict(paths=paths, stmts=stmts))
+    nest_tpl = 0
+    if explicit and draw(st.integers(0, 5)) == 0:
+        nest_tpl = 1 + int(False)
+        j = draw(st.integers(0, nroots - 1))
+        roots[j].update(kind=draw(st.sampled_from(["arg", "arg", "globu"])), big=draw(st.sampled_from([0, 0, 1])), gg=0, glayout=None, space="L3")
+        kx = draw(st.integers(0, nlay - 1))
+        pc = draw(st.sampled_from([[["ms", "L1"]], [["ms", "L1"], ["lc", kx]], [["lc", kx], ["ms", "L1"]], [["lc", kx]]]))
+        ins_ = [draw(st.integers(0, nroots - 1))] if nroots > 1 and draw(st.booleans()) else []
+        ins_ = [x for x in ins_ if x != j]
+        w_ = ["op", draw(st.sampled_from(["linalg_lib", "linalg", "dart_op", "dart_sched"])), ins_, [j]]
+        inner_ub = draw(st.sampled_from([None, None, 0, 0, 1]))
+        inner = ["for", [w_]] if inner_ub is None else ["for", [w_], {"ub": inner_ub}]
+        outer_ub = draw(st.sampled_from([1, 1, 2, None, 3]))
+        outer = ["for", [inner]] if outer_ub is None else ["for", [inner], {"ub": outer_ub}]
+        paths_ = [draw(_path(nlay, explicit)) for _ in range(nroots)]
+        paths_[j] = dict(sv=draw(st.sampled_from([0, 1, 2])), casts=pc, base=None, **{"def": draw(st.sampled_from(["top", "epoch"]))})
+        epochs.append(dict(paths=paths_, stmts=[outer]))
     mix = 0
     if not explicit and draw(st.integers(0, 2)) == 0:
         mix = draw(st.sampled_from([1, 1, 2]))
@@ -329,7 +350,7 @@ def program(draw, tier="quick", mode=None):
                 vis=draw(st.sampled_from(["public", "none"])), a2g=draw(st.sampled_from([0, 0, 1])) if not explicit else 0,
                 dead=0 if template else draw(st.sampled_from([0, 0, 0, 1])),
                 plain=0 if template else draw(st.sampled_from([0, 0, 0, 0, 0, 1])),
-                bare_ok=1 if template else draw(st.sampled_from([0, 0, 1])), subview_mix=mix, trips=trips)
+                bare_ok=1 if template else draw(st.sampled_from([0, 0, 1])), subview_mix=mix, nest_tpl=nest_tpl, trips=trips)
 
 
 # ------------------------------------------------------------------------------------------------------------------
@@ -408,6 +429,8 @@ def build(r) -> Built:
             if not is_row_major(lr) or rt["glayout"] % 2 == 0:
                 rlay[i] = tsl_text(lr)
     bare_ok = bool(r.get("bare_ok")) and explicit
+    if r.get("nest_tpl"):
+        b.features.add("template:output-only-use-two-loops-deep-cast-outside")
 
     globals_txt: list[str] = []
     top: list[str] = []
@@ -889,9 +912,15 @@ def build(r) -> Built:
             else:
                 lid = b.nloops
                 b.nloops += 1
-                ub = f"%n{lid}"
-                loop_args.append(ub)
-                b.arg_spec.append(("loop", lid))
+                cub = s[2].get("ub") if len(s) > 2 and isinstance(s[2], dict) else None
+                if cub is None:
+                    ub = f"%n{lid}"
+                    loop_args.append(ub)
+                    b.arg_spec.append(("loop", lid))
+                else:
+                    ub = f"%cub{lid}"
+                    out.append(f'{pad}{ub} = "arith.constant"() <{{value = {int(cub) % 4} : index}}> : () -> index')
+                    b.features.add("loop:constant-bounds" + (":empty" if int(cub) % 4 == 0 else ""))
                 niv = fresh("i")
                 body: list[str] = []
                 for i in need:
@@ -1043,7 +1072,8 @@ def constant_case(draw, tier="quick"):
         tb.append(bs)
     pos = [[d, k] for d, bs in enumerate(tb) for k in range(len(bs))]
     order = list(draw(st.permutations(pos)))
-    return dict(kind=draw(st.sampled_from(CONST_KINDS[:5] * 3 + CONST_KINDS[5:])), tb=tb, order=order, elt=draw(st.sampled_from([8, 16, 32])),
+    order2 = list(draw(st.permutations(pos))) if draw(st.integers(0, 2)) == 0 else None
+    return dict(kind=draw(st.sampled_from(CONST_KINDS[:5] * 3 + CONST_KINDS[5:])), tb=tb, order=order, order2=order2, elt=draw(st.sampled_from([8, 16, 32])),
                 seed=draw(st.integers(0, 4000)), unit_step=draw(st.sampled_from([0, 0, 1, 7])),
                 sub=dict(mult=[draw(st.sampled_from([1, 2, 2, 3])) for _ in range(rank)], tile=[draw(st.integers(0, 2)) for _ in range(rank)]),
                 space=draw(st.sampled_from(["L1", "L3", None])))
@@ -1061,6 +1091,13 @@ def constant_exhaustive(tier="quick"):
             if len(pos) > 4:
                 continue
             for order in itertools.permutations(pos):
+                if len(pos) >= 2:
+                    # a chain of two layout casts: the first layout is `order` (all permutations), the second a rotation of it
+                    for kind in ("arith", "global"):
+                        n += 1
+                        o2 = [list(p) for p in (order[1 + n % (len(pos) - 1):] + order[:1 + n % (len(pos) - 1)])]
+                        yield dict(kind=kind, tb=tb, order=[list(p) for p in order], order2=o2, elt=[8, 16, 32][n % 3], seed=n % 997,
+                                   unit_step=0, sub=dict(mult=[1] * len(shape), tile=[0] * len(shape)), space=["L1", "L3", None][n % 3])
                 for kind in CONST_KINDS[:5]:
                     n += 1
                     yield dict(kind=kind, tb=tb, order=[list(p) for p in order], elt=[8, 16, 32][n % 3], seed=n % 997, unit_step=0,
